@@ -4758,10 +4758,8 @@ class Symbol:
         # Ignore previous symbol's defaults.
         # They'll be added during finalize_node() for completeness, but won't take any effect;
         # First one will be used as it has no condition.
-        dependency = self.kconfig.y
-        for node in self.nodes:
-            dependency = self.kconfig._make_and(dependency, node.dep)
-        self.defaults = [(sym_for_val, dependency)]
+        # A symbol defined in several places depends on the OR of its definitions' dependencies (direct_dep)
+        self.defaults = [(sym_for_val, self.direct_dep)]
 
         # Invalidate recursively to propagate the change to dependent symbols
         self._rec_invalidate()
